@@ -21,7 +21,7 @@ NONE = 'NONE'      # the Python value None (keyword defaults such as posinf=None
 RAISE = 'RAISE'    # evaluating the expression raises (Python scalar path only)
 SINGLETONS = {'NINF', 'M1', 'Z', 'ONE', 'PINF', 'F', 'T', 'NONE'}
 
-SAMPLES: Dict[str, List] = {
+SAMPLES_BASE: Dict[str, List] = {
     'NINF': [-math.inf],
     'LT_M1': [-FMAX, -1e300, -1e10, -4.0, -3.0, -2.0, -1.5, -(1 + 2 * EPS)],
     'M1': [-1.0],
@@ -38,8 +38,25 @@ SAMPLES: Dict[str, List] = {
 }
 
 
+SAMPLES: Dict[str, List] = {k: list(v) for k, v in SAMPLES_BASE.items()}
+
+
 class PyRaise(Exception):
     pass
+
+
+# the finite cut points of the current partition (base: -1, 0, 1); refine() adds more for the thorough tier
+_POINTS: List[float] = [-1.0, 0.0, 1.0]
+_POINT_NAME = {-1.0: 'M1', 0.0: 'Z', 1.0: 'ONE'}
+_INTERVAL_NAME = {(-math.inf, -1.0): 'LT_M1', (-1.0, 0.0): 'M1_0', (0.0, 1.0): 'P0_1', (1.0, math.inf): 'GT1'}
+
+
+def _pname(p: float) -> str:
+    return _POINT_NAME.get(p) or f"P[{p:g}]"
+
+
+def _iname(a: float, b: float) -> str:
+    return _INTERVAL_NAME.get((a, b)) or f"I({a:g},{b:g})"
 
 
 def classify(v) -> str:
@@ -51,13 +68,71 @@ def classify(v) -> str:
     if math.isnan(v): return 'NAN'
     if v == math.inf: return 'PINF'
     if v == -math.inf: return 'NINF'
-    if v < -1: return 'LT_M1'
-    if v == -1: return 'M1'
-    if v < 0: return 'M1_0'
-    if v == 0: return 'Z'
-    if v < 1: return 'P0_1'
-    if v == 1: return 'ONE'
-    return 'GT1'
+    lo = -math.inf
+    for p in _POINTS:
+        if v < p: return _iname(lo, p)
+        if v == p: return _pname(p)
+        lo = p
+    return _iname(lo, math.inf)
+
+
+def _interval_samples(a: float, b: float) -> List[float]:
+    out: List[float] = []
+    if a == -math.inf:
+        out += [-FMAX, -1e300, -1e10]
+        base = b if b < 0 else -1.0
+        out += [x for x in (base * 4 - 1, base * 3 - 1, base * 2 - 1, base - 1.0, base - 0.5) if x < b]
+        out.append(b - max(abs(b), 1.0) * 2 * EPS if b != 0 else -TINY)
+    elif b == math.inf:
+        out.append(a + max(abs(a), 1.0) * 2 * EPS if a != 0 else TINY)
+        base = a if a > 0 else 1.0
+        out += [x for x in (base + 0.5, base + 1.0, base * 2 + 1, base * 3 + 1, base * 4 + 1) if x > a]
+        out += [1e10, 1e300, FMAX]
+    else:
+        w = b - a
+        out.append(a + max(abs(a), w) * EPS if a != 0 else TINY)
+        if a == 0: out += [1e-300, 1e-10]
+        out += [a + w * 0.25, a + w * 0.5, a + w * 0.75]
+        if b == 0: out += [-1e-10, -1e-300]
+        out.append(b - max(abs(b), w) * EPS if b != 0 else -TINY)
+    return sorted({x for x in out if a < x < b})
+
+
+def refine(extra_points: Iterable[float]) -> None:
+    """Refine the partition with additional cut points (thorough tier).  Resets the transfer tables."""
+    global NUM_CLASSES, SINGLETONS, _POINTS
+    _POINTS = sorted(set([-1.0, 0.0, 1.0]) | {float(x) for x in extra_points})
+    names = ['NINF']
+    samples: Dict[str, List] = {'NINF': [-math.inf]}
+    lo = -math.inf
+    for p_ in _POINTS + [math.inf]:
+        iv = _iname(lo, p_)
+        names.append(iv)
+        base = SAMPLES_BASE.get(iv)
+        samples[iv] = list(base) if base is not None and len(_POINTS) == 3 else _interval_samples(lo, p_)
+        if p_ != math.inf:
+            names.append(_pname(p_)); samples[_pname(p_)] = [p_]
+        lo = p_
+    names += ['PINF', 'NAN']
+    samples['PINF'] = [math.inf]; samples['NAN'] = [math.nan]
+    for k in ('F', 'T', 'NONE'):
+        samples[k] = SAMPLES_BASE[k]
+    NUM_CLASSES[:] = names
+    SAMPLES.clear(); SAMPLES.update(samples)
+    SINGLETONS.clear(); SINGLETONS.update({'NINF', 'PINF', 'F', 'T', 'NONE'} | {_pname(p_) for p_ in _POINTS})
+    _TABLES.clear()
+
+
+def class_bounds(c: str) -> Tuple[float, float]:
+    """(lo, hi) of a numeric class (lo == hi for points)."""
+    if c == 'NINF': return (-math.inf, -math.inf)
+    if c == 'PINF': return (math.inf, math.inf)
+    lo = -math.inf
+    for p_ in _POINTS + [math.inf]:
+        if c == _iname(lo, p_): return (lo, p_)
+        if p_ != math.inf and c == _pname(p_): return (p_, p_)
+        lo = p_
+    raise KeyError(c)
 
 
 def _f(v) -> float:
@@ -276,8 +351,18 @@ def table_entry(op: str, mode: str, classes: Tuple[str, ...]) -> Tuple[FrozenSet
             rz = True
         except (TypeError, ValueError):
             rz = True      # e.g. float(None): ill-typed application
+    if op in CONTINUOUS and len(out - {'NAN'}) > 1 and all(c not in ('F', 'T', NONE) for c in classes):
+        # each primitive is continuous on a rectangle of classes, so its image is connected: close the sampled classes
+        # under "everything in between" (sampling alone can miss a boundary point such as 0.5 * 4 = 2)
+        order = [c for c in NUM_CLASSES if c != 'NAN']
+        idx = sorted(order.index(c) for c in out if c != 'NAN')
+        out |= set(order[idx[0]:idx[-1] + 1])
     tab[classes] = (frozenset(out), rz)
     return tab[classes]
+
+
+CONTINUOUS = {'add', 'sub', 'mul', 'div', 'true_divide', 'neg', 'abs', 'relu', 'reciprocal', 'exp', 'expm1', 'log', 'log1p', 'logaddexp',
+              'maximum', 'minimum', 'clamp_min', 'clamp_max', 'max', 'min'}
 
 
 def apply(op: str, *args: AV, mode: Optional[str] = None) -> AV:
